@@ -177,6 +177,9 @@ class sequence_variables:
         svalues = []
         for item in items:
             try:
+                if isinstance(item, tuple) and len(item) == 2:
+                    # (key, value) pair: the statistics are about the value
+                    item = item[1]
                 if mapping:
                     item = item[name]
                 else:
